@@ -42,6 +42,10 @@ def cases(draw):
     case["selections"] = sels
     # free-text summary entries left empty (the typed ones - ints, floats, ids - must be filled)
     case["summary_blank"] = draw(st.one_of(st.none(), st.integers(0, 10**6)))
+    # flag / code columns that are usually constant over a file change from line to line
+    if draw(st.integers(0, 3)) == 0:
+        for im in case["images"]:
+            im["vary_constants"] = True
     return case
 
 
@@ -59,6 +63,8 @@ def classify(case):
         labels.append("selections")
     if case.get("summary_blank") is not None:
         labels.append("empty-summary-values")
+    if any(im.get("vary_constants") for im in case["images"]):
+        labels.append("varying-flag-columns")
     return case["level"] == "1.1" or blank, labels
 
 
